@@ -24,8 +24,9 @@ RULE = (
     "some / all nodes jittered by <= 0.2 width; sketches: MappedSketch grids 2x2..3x3 and a 5-quad disk map (3-valent "
     "points) in a general plane when every point is jittered, in a shifted coordinate plane otherwise. 1-3 vertices (vertex 0 over-represented) get a clamp of a random type (Free, Line +- bounds, "
     "Radial +- bounds, Plane, Curve, Surface +- bounds) whose manifold is written for the check and passes through "
-    "the vertex; bounds are tight (half-widths <= 0.15 width) so the unconstrained optimum is often outside. Optional "
-    "Translation / Rotation / Symmetry link from the first clamped vertex to an unclamped one. One cell per "
+    "the vertex; bounds are tight (half-widths <= 0.15 width) so the unconstrained optimum is often outside. In the "
+    "link cells the first clamped vertex leads 1-3 links (Translation / Rotation / Symmetry mixed, added in drawn "
+    "order) to distinct unclamped vertices and every follower's relation is asserted. One cell per "
     "minimisation method; 1-3 iterations and the tolerance are drawn; hand-written fixed cases (regular lattice = every "
     "step rolled back, jittered vertex 0, bounds tighter than the way to the optimum, each link type) run first for "
     "every seed. Fault cells run the same model twice: once to count cell-quality evaluations, once with "
@@ -120,7 +121,9 @@ def _run_params(draw, links: bool, fault: bool, method: Optional[str] = None) ->
     nclamps = draw(st.integers(1, 3))
     out = {
         "clamps": [{"v": draw(_vindex), "m": draw(clamp_spec())} for _ in range(nclamps)],
-        "link": {"f": draw(st.integers(0, 199)), **draw(link_spec())} if links else None,
+        # 1-3 links on the first clamped vertex, added in this order
+        "links": [{"f": draw(st.integers(0, 199)), **draw(link_spec())} for _ in range(draw(st.integers(1, 3)))]
+        if links else [],
         "method": method or draw(st.sampled_from(METHODS)),
         "iters": draw(st.integers(1, 3)),
         "tolerance": draw(st.sampled_from([0.1, 1e-3])),
@@ -240,7 +243,7 @@ class Model:
 
 
 def pick_vertices(case, n: int):
-    """distinct vertex indices for the clamps and the follower"""
+    """distinct vertex indices for the clamps and the followers (one per link that still finds a free vertex)"""
     used: List[int] = []
 
     def free_index(v: int) -> int:
@@ -251,8 +254,15 @@ def pick_vertices(case, n: int):
         return v
 
     clamp_idx = [free_index(c["v"]) for c in case["clamps"][: max(1, n - 1)]]
-    follower = free_index(case["link"]["f"]) if case["link"] is not None and len(used) < n else None
-    return clamp_idx, follower
+    followers = [free_index(ln["f"]) for ln in links_of(case)[: n - len(used)]]
+    return clamp_idx, followers
+
+
+def links_of(case) -> List[Dict[str, Any]]:
+    """link specs of a case ("link": one spec is the older form kept for committed regression files)"""
+    if case.get("links"):
+        return list(case["links"])
+    return [case["link"]] if case.get("link") else []
 
 
 def link_geometry(link, leader: np.ndarray, follower: np.ndarray, size: float):
@@ -361,14 +371,16 @@ def run_and_check(case, ctx: Ctx, fault_at: Optional[int]) -> Probe:
     facts: Dict[str, Any] = {"target": model.kind, "topology": model.topology, "method": case["method"],
                              "iters": case["iters"], "fault": fault_at is not None}
 
-    # --- link first (it may replace the leader's manifold by a coaxial circle)
-    link_abs = None
+    # --- links first (the first coaxial rotation link replaces the leader's manifold by a circle about its axis)
+    leader_idx = clamp_idx[0]
+    links_abs: List[Dict[str, Any]] = []
     specs = [c["m"] for c in case["clamps"][: len(clamp_idx)]]
-    if follower_idx is not None:
-        link_abs, radial = link_geometry(case["link"], before[clamp_idx[0]], before[follower_idx], size)
-        if radial is not None:
-            specs[0] = radial
-        facts["link"] = link_abs["type"]
+    for spec, fi in zip(links_of(case), follower_idx):
+        absolute, radial = link_geometry(spec, before[leader_idx], before[fi], size)
+        if radial is not None and specs[0].get("coaxial_with") is None:
+            specs[0] = dict(radial, coaxial_with=len(links_abs))
+        links_abs.append(absolute)
+    facts["links"] = [ln["type"] for ln in links_abs]
 
     # --- clamps
     manifolds, clamps, attached = [], [], []
@@ -395,28 +407,31 @@ def run_and_check(case, ctx: Ctx, fault_at: Optional[int]) -> Probe:
         except Exception as ex:
             raise Violation("setup-raised", f"add_clamp raised {type(ex).__name__}: {ex}", **facts) from None
         snapped[vi] = np.asarray(clamp.position, float)
-    link = None
-    if link_abs is not None:
+    for absolute, fi in zip(links_abs, follower_idx):
         try:
-            link = xm.make_link(link_abs, np.array(before[clamp_idx[0]]), np.array(before[follower_idx]))
-            opt.add_link(link)
+            opt.add_link(xm.make_link(absolute, np.array(before[leader_idx]), np.array(before[fi])))
         except Exception as ex:
-            raise Violation("setup-raised", f"{link_abs['type']} link raised {type(ex).__name__}: {ex}", **facts) from None
+            raise Violation("setup-raised", f"{absolute['type']} link raised {type(ex).__name__}: {ex}", **facts) from None
         if attached[0]:
-            want = xm.expected_follower(link_abs, before[clamp_idx[0]], before[follower_idx], snapped[clamp_idx[0]])
+            want = xm.expected_follower(absolute, before[leader_idx], before[fi], snapped[leader_idx])
             if want is not None:
-                snapped[follower_idx] = want
+                snapped[fi] = want
 
     try:
         q_before = model.quality_of(before)
         q_snapped = model.quality_of(snapped)
-        if link_abs is not None and link_abs["type"] == "rotation" and attached[0]:
-            # RotationLink measures the leader's turn with arccos: resolution ~2e-8 rad even for an unmoved leader,
-            # so the state the optimizer can return to is defined up to that turn of the follower
-            for turn in (ROT_NOISE, -ROT_NOISE):
-                state = snapped.copy()
-                state[follower_idx] = apply(m_rotate(turn, link_abs["axis"], link_abs["origin"]), snapped[follower_idx])
-                q_snapped = max(q_snapped, model.quality_of(state))
+        # RotationLink measures the leader's turn with arccos: resolution ~2e-8 rad even for an unmoved leader, so the
+        # state the optimizer can return to is defined up to that turn of each such follower (first-order sum)
+        noise = 0.0
+        for absolute, fi in zip(links_abs, follower_idx):
+            if absolute["type"] == "rotation" and attached[0]:
+                worst = 0.0
+                for turn in (ROT_NOISE, -ROT_NOISE):
+                    state = snapped.copy()
+                    state[fi] = apply(m_rotate(turn, absolute["axis"], absolute["origin"]), snapped[fi])
+                    worst = max(worst, model.quality_of(state) - q_snapped)
+                noise += worst
+        q_snapped += noise
     except ValueError:
         ctx.label("degenerate-input")
         return Probe(None)
@@ -468,8 +483,8 @@ def run_and_check(case, ctx: Ctx, fault_at: Optional[int]) -> Probe:
 
     # --- vertices without clamp or link do not move at all
     movable = {vi for vi, ok in zip(clamp_idx, attached) if ok}
-    if follower_idx is not None and attached[0]:
-        movable.add(follower_idx)
+    if attached[0]:
+        movable.update(follower_idx)
     for i in range(n):
         if i not in movable and not np.array_equal(after[i], before[i]):
             raise Violation("unclamped-moved", f"vertex {i} has no clamp or link but moved from {before[i].tolist()} to "
@@ -496,25 +511,28 @@ def run_and_check(case, ctx: Ctx, fault_at: Optional[int]) -> Probe:
             if man.bounded and _at_bound(man, x, size):
                 ctx.label("ends-at-bound")
 
-    # --- linked vertices keep their relation to the leader
-    if link is not None:
-        li = clamp_idx[0]
-        want = xm.expected_follower(link_abs, before[li], before[follower_idx], after[li])
+    # --- every linked vertex keeps its relation to the leader
+    for k, (absolute, fi) in enumerate(zip(links_abs, follower_idx)):
+        want = xm.expected_follower(absolute, before[leader_idx], before[fi], after[leader_idx])
         if want is None:
             ctx.label("relation-undefined")
+            continue
+        scale = size + float(np.linalg.norm(before[fi] - before[leader_idx]))
+        if absolute["type"] == "rotation":
+            tol = TOL_ROT * (scale + float(np.linalg.norm(before[fi] - np.asarray(absolute["origin"]))))
         else:
-            scale = size + float(np.linalg.norm(before[follower_idx] - before[li]))
-            if link_abs["type"] == "rotation":
-                tol = TOL_ROT * (scale + float(np.linalg.norm(before[follower_idx] - np.asarray(link_abs["origin"]))))
-            else:
-                tol = TOL_LINK * (scale + float(np.linalg.norm(after[li])))
-            err = float(np.linalg.norm(after[follower_idx] - want))
-            if not err <= tol:
-                raise Violation("link-relation", f"{link_abs['type']} link: leader {li} at {after[li].tolist()}, follower "
-                                f"{follower_idx} at {after[follower_idx].tolist()}, expected {want.tolist()}",
-                                error=err / size, **facts)
-            if float(np.linalg.norm(after[follower_idx] - before[follower_idx])) > 1e-6 * size:
-                ctx.label("follower-moved:" + link_abs["type"])
+            tol = TOL_LINK * (scale + float(np.linalg.norm(after[leader_idx])))
+        err = float(np.linalg.norm(after[fi] - want))
+        if not err <= tol:
+            raise Violation("link-relation", f"{absolute['type']} link {k + 1} of {len(links_abs)}: leader {leader_idx} at "
+                            f"{after[leader_idx].tolist()}, follower {fi} at {after[fi].tolist()}, expected "
+                            f"{want.tolist()}", error=err / size, link_no=k, nlinks=len(links_abs), **facts)
+        if float(np.linalg.norm(after[fi] - before[fi])) > 1e-6 * size:
+            ctx.label("follower-moved:" + absolute["type"])
+    if links_abs:
+        ctx.label(f"links-per-leader={len(links_abs)}")
+        if len({ln["type"] for ln in links_abs}) > 1:
+            ctx.label("mixed-link-types")
 
     # --- summed quality no worse than before
     try:
@@ -536,7 +554,7 @@ def run_and_check(case, ctx: Ctx, fault_at: Optional[int]) -> Probe:
         ctx.label("improved")
     if moved_any and 0 in movable and not np.array_equal(after[0], before[0]):
         ctx.label("vertex0-moved")
-    ctx.key = [model.topology, facts["clamps"], facts.get("link"), case["method"], case["iters"], fault_at is not None]
+    ctx.key = [model.topology, facts["clamps"], facts["links"], case["method"], case["iters"], fault_at is not None]
     return probe
 
 
@@ -590,9 +608,10 @@ def _lat(dims, jitter_nodes: Dict[int, List[float]], orient=None, widths=None):
             "cells": list(range(nc)), "orient": orient or [0] * nc, "offset": [0.3, -0.2, 0.1], "chops": []}
 
 
-def _case(kind, body, clamps, method, iters=2, link=None, fault=None):
+def _case(kind, body, clamps, method, iters=2, link=None, fault=None, links=None):
     key = "lat" if kind == "mesh" else "sk"
-    return {"kind": kind, key: body, "clamps": clamps, "link": link, "method": method, "iters": iters,
+    return {"kind": kind, key: body, "clamps": clamps, "links": links or ([link] if link else []), "method": method,
+            "iters": iters,
             "tolerance": 0.1, "fault": fault}
 
 
@@ -623,6 +642,17 @@ FIXED_MESH_LINKS = [
           link={"f": 6, "type": "rotation", "coaxial": True, "axis": [0.2, 0.1, 1.0], "cdir": [1.0, 0.5, 0.0], "nlen": 3.0,
                 "r": 2.0, "h": 0.5, "bounded": False, "lo": 0.1, "hi": 0.1}),
 ]
+_L_TRANS = {"type": "translation"}
+_L_SYM = {"type": "symmetry", "nlen": 2.0, "inplane": [0.3, 0.1, -0.2]}
+_L_ROT = {"type": "rotation", "coaxial": False, "axis": [0.2, 0.1, 1.0], "cdir": [1.0, 0.5, 0.0], "nlen": 3.0, "r": 2.0,
+          "h": 0.5, "bounded": False, "lo": 0.1, "hi": 0.1}
+# several links on one leader, mixed types, different orders: every follower must be written, not only the last
+FIXED_MESH_LINKS += [
+    _case("mesh", _lat((2, 1, 1), _ALL), [{"v": 1, "m": _FREE}], "SLSQP",
+          links=[dict(_L_TRANS, f=5), dict(_L_SYM, f=7), dict(_L_ROT, f=9)]),
+    _case("mesh", _lat((2, 1, 1), _ALL), [{"v": 0, "m": _FREE}], "L-BFGS-B", iters=1,
+          links=[dict(_L_ROT, f=6), dict(_L_TRANS, f=3)]),
+]
 _SK = {"topo": "grid", "n": [2, 2], "widths": [[1.0, 1.0], [1.0, 1.0]],
        "jitter": [0.9, -0.8, -0.5, 0.7, 0.3, 0.9, -0.9, 0.2, 0.8, 0.6, 0.4, -0.7, 0.1, -0.9, -0.6, 0.5, 1.0, -0.3],
        "a": [1.0, 0.3, 0.2], "b": [-0.2, 1.0, 0.4], "origin": [0.5, -1.0, 2.0]}
@@ -637,6 +667,11 @@ FIXED_SKETCH_LINKS = [
     _case("sketch", _SK, [{"v": 4, "m": _FREE}], "SLSQP", link={"f": 0, "type": "translation"}),
     _case("sketch", _SK, [{"v": 0, "m": _FREE}], "L-BFGS-B",
           link={"f": 8, "type": "symmetry", "nlen": 0.5, "inplane": [0.1, 0.2, 0.3]}),
+]
+FIXED_SKETCH_LINKS += [
+    _case("sketch", _SK, [{"v": 4, "m": _FREE}], "SLSQP", links=[dict(_L_TRANS, f=0), dict(_L_SYM, f=8)]),
+    _case("sketch", _SK, [{"v": 0, "m": _FREE}], "Powell", iters=1,
+          links=[dict(_L_SYM, f=2), dict(_L_ROT, f=6), dict(_L_TRANS, f=8)]),
 ]
 FIXED_FAULT_MESH = [
     dict(_case("mesh", _lat((2, 1, 1), _ALL), [{"v": 0, "m": _FREE}, {"v": 1, "m": _FREE}], "SLSQP"), fault=f)
